@@ -34,6 +34,8 @@ theorem node_upd_ne (n : Net) {i j : Nat} (f : Node → Node) (h : i ≠ j) : (n
 
 @[simp] theorem upd_time (n : Net) (i : Nat) (f : Node → Node) : (n.upd i f).time = n.time := rfl
 @[simp] theorem upd_nextId (n : Net) (i : Nat) (f : Node → Node) : (n.upd i f).nextId = n.nextId := rfl
+@[simp] theorem upd_blocked (n : Net) (i : Nat) (f : Node → Node) : (n.upd i f).blocked = n.blocked := rfl
+@[simp] theorem upd_open (n : Net) (i : Nat) (f : Node → Node) (x y : Nat) : (n.upd i f).open x y = n.open x y := rfl
 @[simp] theorem upd_length (n : Net) (i : Nat) (f : Node → Node) : (n.upd i f).nodes.length = n.nodes.length := by
   simp [Net.upd, updAt_length]
 
@@ -106,12 +108,14 @@ structure Net.Shr (n m : Net) : Prop where
   time : m.time = n.time
   nextId : m.nextId = n.nextId
   len : m.nodes.length = n.nodes.length
+  blocked : m.blocked = n.blocked
+  hairpin : m.hairpin = n.hairpin
   node : ∀ j a, n.node j = some a → ∃ b, m.node j = some b ∧ a.Shr b
 
-theorem Net.Shr.refl (n : Net) : n.Shr n := ⟨rfl, rfl, rfl, fun _ a h => ⟨a, h, Node.Shr.refl a⟩⟩
+theorem Net.Shr.refl (n : Net) : n.Shr n := ⟨rfl, rfl, rfl, rfl, rfl, fun _ a h => ⟨a, h, Node.Shr.refl a⟩⟩
 
 theorem Net.Shr.trans {n m k : Net} (h1 : n.Shr m) (h2 : m.Shr k) : n.Shr k :=
-  ⟨h2.time.trans h1.time, h2.nextId.trans h1.nextId, h2.len.trans h1.len, fun j a h => by
+  ⟨h2.time.trans h1.time, h2.nextId.trans h1.nextId, h2.len.trans h1.len, h2.blocked.trans h1.blocked, h2.hairpin.trans h1.hairpin, fun j a h => by
     obtain ⟨b, hb, hab⟩ := h1.node j a h
     obtain ⟨c, hc, hbc⟩ := h2.node j b hb
     exact ⟨c, hc, hab.trans hbc⟩⟩
@@ -132,13 +136,13 @@ theorem Net.Shr.back {n m : Net} (h : n.Shr m) {j : Nat} {b : Node} (hb : m.node
     exact ⟨a, rfl, hab⟩
 
 theorem shr_upd (n : Net) (i : Nat) (f : Node → Node) (hf : ∀ a : Node, a.Shr (f a)) : n.Shr (n.upd i f) :=
-  ⟨rfl, rfl, by simp, fun j a h => by
+  ⟨rfl, rfl, by simp, rfl, rfl, fun j a h => by
     by_cases hij : i = j
     · subst hij; exact ⟨f a, by simp [h], hf a⟩
     · exact ⟨a, by simp [hij, h], Node.Shr.refl a⟩⟩
 
 theorem shr_stuck (n : Net) : n.Shr { n with stuck := true } :=
-  ⟨rfl, rfl, rfl, fun _ a h => ⟨a, h, Node.Shr.refl a⟩⟩
+  ⟨rfl, rfl, rfl, rfl, rfl, fun _ a h => ⟨a, h, Node.Shr.refl a⟩⟩
 
 theorem canDeliver_shr {n m : Net} (h : n.Shr m) (x y : Nat) : canDeliver m x y = canDeliver n x y := by
   unfold canDeliver
@@ -150,7 +154,7 @@ theorem canDeliver_shr {n m : Net} (h : n.Shr m) (x y : Nat) : canDeliver m x y 
     | none => simp [h.none hy, ha']
     | some b =>
       obtain ⟨b', hb', hbb⟩ := h.node y b hy
-      simp [ha', hb', haa.nic, hbb.nic, hbb.term]
+      simp [ha', hb', haa.nic, hbb.nic, hbb.term, Net.open, h.blocked, h.hairpin]
 
 /-! ### the disconnect chain only shrinks -/
 
@@ -265,6 +269,9 @@ theorem rel_bump {R : Nat → Node → Node → Prop} {n m : Net} (h : Net.Rel R
 @[simp] theorem node_bump (n : Net) (k j : Nat) : (n.bump k).node j = n.node j := rfl
 @[simp] theorem bump_time (n : Net) (k : Nat) : (n.bump k).time = n.time := rfl
 @[simp] theorem bump_nextId (n : Net) (k : Nat) : (n.bump k).nextId = k := rfl
+@[simp] theorem bump_blocked (n : Net) (k : Nat) : (n.bump k).blocked = n.blocked := rfl
+@[simp] theorem bump_hairpin (n : Net) (k : Nat) : (n.bump k).hairpin = n.hairpin := rfl
+@[simp] theorem upd_hairpin (n : Net) (i : Nat) (f : Node → Node) : (n.upd i f).hairpin = n.hairpin := rfl
 
 /-- a reflexive, transitive node relation -/
 structure Pre (R : Nat → Node → Node → Prop) : Prop where
